@@ -55,3 +55,11 @@ package cert
 //@   loop 0 invariant [msgs] forall id hotstuff.ID :: has(messages, id) ==> has(aggQC.qcs, id) && content(messages[id]) == hotstuff.tmcontent(id, aggQC.view, true, aggQC.qcs[id])
 //@   loop 0 invariant [fresh] fresh(qcs) && messages != nil && fresh(messages)
 //@   modifies c.blockchain.blocks[*], c.blockchain.blockAtHeight[*], c.blockchain.pendingFetch[*], c.blockchain.eventLoop.handlers[*], alloc
+
+// The certificate a proposal is judged by: its block's QC must be a valid QC (and, with
+// aggregate QCs, the aggregate certificate must verify and its high QC is the block's QC).
+//@ func (*Authority).VerifyAnyQC property C02,C10
+//@   requires awf(c) && hotstuff.genesisBlock != nil && proposal != nil && proposal.Block != nil
+//@   ensures [qc-valid] result == nil ==> qcok(c, proposal.Block.cert)
+//@   ensures [inv] blockchain.binv(c.blockchain) && blockchain.bmaps(c.blockchain)
+//@   modifies c.blockchain.blocks[*], c.blockchain.blockAtHeight[*], c.blockchain.pendingFetch[*], c.blockchain.eventLoop.handlers[*], alloc
